@@ -2553,8 +2553,14 @@ class Env(cabc.MutableMapping):
     def _detyped(self):
         local = self.__dict__.get("_detyped_local")
         cached = None if local is None else local.__dict__.get("cache")
-        if cached is not None and cached[0] == self._detyped_gen:
-            return cached[1]
+        # (a shallow copy of an Env shares the thread-local object: entries
+        # are only valid for the Env that stored them)
+        if (
+            cached is not None
+            and cached[0] is self
+            and cached[1] == self._detyped_gen
+        ):
+            return cached[2]
         return None
 
     @_detyped.setter
@@ -2564,7 +2570,7 @@ class Env(cabc.MutableMapping):
         if value is None:
             self._detyped_gen += 1
         else:
-            self._detyped_local.cache = (self._detyped_gen, value)
+            self._detyped_local.cache = (self, self._detyped_gen, value)
 
     def get_detyped(self, key: str):
         detyped = self.detype()
@@ -2606,7 +2612,7 @@ class Env(cabc.MutableMapping):
             ctx[key] = deval
         if not self._overlay_stack:
             # valid for the state this thread saw when it started reading
-            self._detyped_local.cache = (gen, ctx)
+            self._detyped_local.cache = (self, gen, ctx)
         return ctx
 
     def detype_all(self):
